@@ -1,6 +1,6 @@
 (* Links between the judge of C07Judge.v and the theorems of LayerProofs.v, and the refutation
    witnesses (evaluated with vm_compute) for the ill-behaved interceptors and seed hooks. *)
-From SC Require Import Base.Prelude Alias.Owned Alias.OwnedProofs Alias.LayerProofs Alias.TraitProofs Alias.Nested Alias.NestedProofs Alias.C07Judge.
+From SC Require Import Base.Prelude Alias.Owned Alias.OwnedProofs Alias.LayerProofs Alias.TraitProofs Alias.Nested Alias.NestedProofs Alias.Writable Alias.WritableProofs Alias.C07Judge Alias.Monitor.
 
 Local Open Scope Z_scope.
 
@@ -18,6 +18,8 @@ Definition cop_proved (c : cop) : bool :=
   | CWrite _ arg _ _ _ ib ia => arg_wf arg && icode_proved_before ib && icode_proved ia
   | CPull _ _ h => scode_proved h
   | CRead r => rcode_proved r
+  | CWriteF _ arg _ (MW _ _ _) _ ib ia => arg_wf arg && icode_proved_before ib && icode_proved ia
+  | CWriteF _ _ _ (MWShare _ _ _) _ _ _ => false
   | _ => true
   end.
 
@@ -53,6 +55,9 @@ Proof.
     split; [apply (icode_proved_before_wb ib B) | apply (icode_proved_wb ia C)].
   - intro H. apply (scode_proved_wb hook H).
   - destruct r; simpl; [intros _; apply wb_read_assembled | discriminate].
+  - destruct mc; [|discriminate]. rewrite !andb_true_iff. intros [[A B] C]. split; auto.
+    split; [apply upd_merge_w_wb|].
+    split; [apply (icode_proved_before_wb ib B) | apply (icode_proved_wb ia C)].
 Qed.
 
 Lemma cops_proved_ok ops : forallb cop_proved ops = true -> Forall op_ok (map cop_op ops).
@@ -248,6 +253,73 @@ Lemma w_metadata_slice_clone_fails :
 Proof. vm_compute. auto. Qed.
 
 (* ---- the judge against the model: what agreement implies inside the proved fragment ---- *)
+(* ---------- writable fields (resource constructed WithWritablePaths), nested update masks, reset masks ---------- *)
+(* {1: 40, 19: {1: "a"}, 49: [{1: 3}]} written to a Value whose writable fields are 1, 19 and 49, no update
+   mask; then the caller rewrites its message.  share = the by-reference fast path of seeded change C07-r4-4 *)
+Definition w_wr_arg : list cell :=
+  [CNode [(1, 40); (2, 5)] [(19, (Caller, 1))] [(49, ((Caller, 2), 1))]; CNode [(1, 1000)] [] []; CArr [(Caller, 3)]; CNode [(1, 3)] [] []].
+Definition w_wr_mask : nmask := NM [(1, NM []); (19, NM []); (49, NM [])].
+Definition w_writable (share : bool) : list cop :=
+  [CWriteF 0 w_wr_arg true ((if share then MWShare else MW) (Some w_wr_mask) None None) MSet INone INone;
+   CGet 0 None; CMutArg 0%nat 0].
+(* nested writable path 18.2.19 with an update mask below it and a reset mask *)
+Definition w_wr_nested : list cop :=
+  [CWriteF 0 [CNode [(1, 7)] [(18, (Caller, 1))] []; CNode [(1, 2)] [(2, (Caller, 2))] []; CNode [(1, 4)] [(19, (Caller, 3))] []; CNode [(1, 1); (2, 2)] [] []]
+           true (MW (Some (NM [(1, NM []); (18, NM [(2, NM [(1, NM []); (19, NM [])])])])) None None) MSet INone INone;
+   CWriteF 0 [CNode [(1, 9)] [(18, (Caller, 1))] []; CNode [(1, 3)] [(2, (Caller, 2))] []; CNode [(1, 5)] [(19, (Caller, 3))] []; CNode [(1, 8)] [] []]
+           true (MW (Some (NM [(1, NM []); (18, NM [(2, NM [(1, NM []); (19, NM [])])])]))
+                    (Some (NM [(18, NM [(2, NM [(19, NM [(1, NM [])])])])])) (Some (NM [(1, NM [])]))) MSet INone (ISetNew 2 6);
+   CGet 0 None; CMutArg 1%nat 2; CMutArg 0%nat 0].
+
+Lemma w_writable_share_fails :
+  forallb cop_guard (w_writable true) = true /\ model_ok false (w_writable true) = false /\
+  model_trace (init_state false) (w_writable true) = [mkO 2 [] false false; mkO 3 [] false false; mkO 3 [0; 1; 2] false false].
+Proof. vm_compute. auto. Qed.
+Lemma w_writable_ok :
+  forallb cop_proved (w_writable false) = true /\ model_ok false (w_writable false) = true /\
+  forallb cop_proved w_wr_nested = true /\ model_ok false w_wr_nested = true.
+Proof. vm_compute. auto. Qed.
+(* the stored value of the second history: field 1 reset, 18.2.19.1 = 8 taken from the argument, 18.2.19.2 kept
+   from the first write, 18.1 (not writable) absent, field 2 set by the interceptor *)
+Lemma w_wr_nested_value :
+  let st := run fuel (init_state false) (map cop_op w_wr_nested) in
+  match fget 0 (store st) with
+  | Some t => Monitor.rd 6 (hp (hs st)) t
+  | None => Monitor.rd 0 [] (Lib, 0)
+  end =
+  let st0 := run fuel (init_state false)
+               [OWrite 0 [CNode [(2, 6)] [(18, (Caller, 1))] []; CNode [] [(2, (Caller, 2))] []; CNode [(1, 4)] [(19, (Caller, 3))] []; CNode [(1, 8); (2, 2)] [] []]
+                       true None MSet i_none i_none] in
+  match fget 0 (store st0) with
+  | Some t => Monitor.rd 6 (hp (hs st0)) t
+  | None => Monitor.rd 0 [] (Lib, 0)
+  end.
+Proof. vm_compute. reflexivity. Qed.
+(* under the shared fast path the stored value reaches an object of the caller's argument *)
+Lemma w_writable_share_reaches :
+  let st := run fuel (init_state false) (map cop_op (firstn 1 (w_writable true))) in
+  match fget 0 (store st) with
+  | Some t => match sub_of (hs st) t 19 with Some u => owner_eqb (fst u) Caller | None => false end
+  | None => false
+  end = true.
+Proof. vm_compute. reflexivity. Qed.
+
+(* a model hands one of its stored messages to a write on another resource constructed with writable field 1
+   (electricpb changeActiveMode before 6705ac9): Add {1: 7, 2: 5, 19: {1: 3}}; Get; the write.  The stored
+   message and the two earlier results (snapshots 1, 2) lose fields 2 and 19. *)
+Definition w_stored_arg : list cell := [CNode [(1, 7); (2, 5)] [(19, (Caller, 1))] []; CNode [(1, 3)] [] []].
+Definition w_write_stored (v0 : bool) : list op :=
+  [OWrite 1 w_stored_arg true None MAdd i_none i_none; OGet 1 None;
+   ORead ((if v0 then r_write_stored_v0 else r_write_stored) fuel 0%nat (Some (NM [(1, NM [])])) None None)].
+Definition changed_last (ops : list op) : list Z :=
+  let st := run fuel (init_state true) (removelast ops) in
+  match last ops (ODelete 0) with o => changed fuel st (step fuel st o) end.
+Lemma w_write_stored_v0_fails : changed_last (w_write_stored true) = [1; 2].
+Proof. vm_compute. reflexivity. Qed.
+Lemma w_write_stored_ok :
+  changed_last (w_write_stored false) = [] /\ zlen (snaps (run fuel (init_state true) (w_write_stored false))) = 4.
+Proof. vm_compute. auto. Qed.
+
 Lemma list_eqb_Z a : forall b, list_eqb Z.eqb a b = true -> a = b.
 Proof.
   induction a as [|x a IH]; intros [|y b]; simpl; try discriminate; auto.
